@@ -400,6 +400,8 @@ def run(chk):
 
     from verif import fallthrough
     fallthrough.run(chk, "C04", floor=2)
+    from verif import patname
+    patname.run(chk, "C04", floor=45)
     from verif import moved
     moved.run(chk, "C04", r"^/repo/opm/input/eclipse/Schedule/", floor=95)
     from verif import argorder
